@@ -199,6 +199,8 @@ def inflation (m : M) (supply start t : Int) : Outcome Int :=
     match m.endT with
     | none => .panic
     | some e =>
+      -- D33 repair: a linear period whose end has been reached reports no inflation (as the exponential one)
+      if t ≥ e then .ok 0 else
       -- `periodDuration := endTime.Sub(minterStart)`
       if satDur (e - start) = 0 then .panic else
       .ok (Dec.quoInt (Dec.quoInt (Dec.mulInt (Dec.ofInt a) year) (satDur (e - start))) supply)
